@@ -17,6 +17,7 @@ claimed = {
  'C05': ("All paths of Parse (and streaming+Extract+Rewrite) over the bounded inputs; node grammar and accessor ranges asserted for every node.", "§C05"),
  'C13': ("All paths of Parse over the bounded inputs; the construct shape table is evaluated on the symbolic source bytes of every node's span.", "§C13"),
 }
+claimed['C15'] = ("Unit-level: every path of the five line recognisers over all lines up to the bound, all 256 bytes for the classifiers, NormalizeURI and IsEmailAddress over all short byte strings; each compared with a reference transcribed from the spec text; solver-decided.", "§C15")
 reasons = {}
 
 checks = []
